@@ -281,6 +281,10 @@ def _res_params(tier):
         out.append(dict(specs=[[("raw", 0, r)]], eh=(r % 2 == 0)))
         out.append(dict(specs=[[("raw", 0, r)], ["tcp"]], eh=False))
         out.append(dict(specs=[["tcp", "ip"], [("raw", 0, r), "tcp"], [("raw", 1, (r + 3) % 8)]], eh=True))
+        # towers of the same shape: their contents may be EQUAL (the same tower listed twice), decided by the solver
+        out.append(dict(specs=[[("raw", 0, r)], [("raw", 0, r)]], eh=False))
+        if r % 2:
+            out.append(dict(specs=[[("raw", 0, r)], ["tcp"], [("raw", 0, r)]], eh=False))
     if tier == "thorough":
         for r in range(8):
             for r2 in range(8):
@@ -289,7 +293,7 @@ def _res_params(tier):
     return out
 
 
-@harness(P, per_job=True, params=_res_params, bounds="ept_map result: 0..3 (quick) / 0..6 (thorough) towers whose lengths take every residue mod 8, symbolic floors, status and entry handle; "
+@harness(P, per_job=True, params=_res_params, bounds="ept_map result: 0..3 (quick) / 0..6 (thorough) towers whose lengths take every residue mod 8, symbolic floors (towers of equal shape may be equal), status and entry handle; "
          "unpack(pack(x)) == x and pack(unpack(pack(x))) == pack(x)", outside="more towers", must_reach=("ept_map result",))
 def ept_map_result(c, specs, eh):
     towers = []
